@@ -7,6 +7,7 @@ import pandas as pd
 from scipy.stats import norm
 
 from common import fx, unfx, enc_list, close
+from props import calc2
 
 REQUIRED = ['ci_linear', 'ci_log', 'ci_contains', 'ci_nested', 'ci_exp_contains', 'ci_log_contains', 'ci_exp_nested',
             'ci_log_nested', 'z_of_alpha_nonneg', 'z_of_alpha_antitone', 'nested_in_alpha_lin', 'nested_in_alpha_log',
@@ -19,13 +20,27 @@ REQUIRED = ['ci_linear', 'ci_log', 'ci_contains', 'ci_nested', 'ci_exp_contains'
             'real_transc_ok', 'real_ratio_ci',
             'xfit_ic_rd_generated', 'xfit_ic_rr_generated', 'xfit_ic_or_generated', 'xfit_estimates_generated',
             'aipw_calc_ratio_var_generated',
-            'joint_estimate_generated']
+            'joint_estimate_generated',
+            # Props/C06_Calc.lean: the second batch of zepid/calc/utils.py (Gen/Calc2.lean)
+            'sens_ci_linear', 'spec_ci_linear', 'sens_indep_alpha', 'spec_indep_alpha', 'sensitivity_eq_risk_ci',
+            'specificity_eq_risk_ci', 'sens_reject_iff', 'spec_reject_iff', 'sens_coherent', 'spec_coherent',
+            'ppv_reject_iff', 'npv_reject_iff', 'ppv_bayes', 'npv_bayes', 'ppv_unit', 'npv_unit',
+            'rubins_reject_iff', 'rubins_def', 'rubins_total_ge_within', 'se_of_limits', 'semibayes_lin_def',
+            'semibayes_log_def', 'semibayes_log_ci', 'post_mean_between', 'post_var_le', 'semibayes_coherent',
+            'z_of_alpha_pos', 'semibayes_nested', 'counternull_def', 'counternull_recovers_se', 'logit_roundtrip',
+            'inverse_logit_roundtrip', 's_value_def', 'screening_per_capita', 'screening_costs',
+            'real_calc2_transc_ok', 'real_logit_roundtrip',
+            # Props/C06_Icr.lean: interaction_contrast_ratio(ci='delta') of zepid/base.py (Gen/Icr.lean)
+            'icr_delta_def', 'icr_indep_alpha', 'icr_coherent']
 RULE = ('alpha runs over a fixed grid (25 equally spaced values in (0,1), the extremes 1e-6/1e-3/0.999, and 0.05 with its '
         'neighbours 0.049999/0.050001); for every (estimator, configuration, data set) the whole grid is evaluated and the '
         'limits, containment, nestedness across the grid and alpha-independence of estimate/se are judged; streams: count '
         'calculators on random tables, the six frame classes, AIPTW, TMLE, StochasticTMLE, the four cross-fit classes '
         '(reduced grid: each fit is seconds), IPTW (fixed 95%), and calculate_joint_estimate / tmle_calculator / '
-        'aipw_calculator directly on random vectors. distinct = distinct (stream, configuration, data hash, alpha); '
+        'aipw_calculator directly on random vectors; the second batch of zepid/calc/utils.py (sensitivity, specificity, '
+        'ppv/npv_converter, screening_cost_analyzer, rubins_rules, semibayes, counternull_pvalue, s_value, logit, '
+        'inverse_logit, and interaction_contrast_ratio with the delta-method interval on simulated data: a valid stream and a malformed stream reaching every raise; semibayes / counternull_pvalue are fed '
+        'limits built at the alpha they are called with) and the Sensitivity / Specificity / Diagnostics result tables. distinct = distinct (stream, configuration, data hash, alpha); '
         'non-trivial = se > 0 and finite')
 ASSUMPTIONS = ['scipy.stats.norm.ppf is strictly increasing on the alpha grid and ppf(0.5) = 0 (measured each run)',
                'statsmodels GEE (independence, robust covariance) reports bse = HC0 sandwich with each row its own '
@@ -140,7 +155,13 @@ def cell_calc(chk, drv, fn, args, kw):
         r = getattr(cu, fn)(*args, alpha=alpha, **kw)
         est, lcl, ucl, se = (float(x) for x in r[:4])
         recs.append({'alpha': alpha, 'est': est, 'se': se, 'lcl': lcl, 'ucl': ucl})
-        if drv is not None and fn not in ('sensitivity', 'specificity'):
+        if drv is not None and fn in ('sensitivity', 'specificity'):
+            rep, line = drv.ask('calc2', fn=fn, a=fx(args[0]), b=fx(args[1]), alpha=fx(alpha),
+                                confint=kw.get('confint', 'wald'), px=fx(1 - alpha / 2), pz=fx(z_of(alpha)))
+            ok = rep['status'] == 'ok' and all(close(unfx(rep[k]), v, rtol=1e-11, atol=1e-14) for k, v in
+                                              zip(('point', 'lower', 'upper', 'se'), (est, lcl, ucl, se)))
+            chk.k(ok, 'generated calculator %s vs implementation' % fn, {'case': case, 'alpha': alpha, 'model': rep})
+        elif drv is not None:
             z = z_of(alpha)
             if fn in ('risk_ci', 'incidence_rate_ci'):
                 kwd = dict(fn=fn, a=fx(args[0]), b=fx(args[1]), alpha=fx(alpha), px=fx(1 - alpha / 2), pz=fx(z))
@@ -166,7 +187,9 @@ def stream_calculators(chk, drv, rng, tier):
         calls = [(fn, (a, b, c, d), {}) for fn in CALC4] + \
                 [(fn, (a, c, t1, t2), {}) for fn in ('incidence_rate_ratio', 'incidence_rate_difference')] + \
                 [('risk_ci', (a, a + b), {'confint': 'wald'}), ('risk_ci', (a, a + b), {'confint': 'hypergeometric'}),
-                 ('incidence_rate_ci', (a, t1), {}), ('sensitivity', (a, a + b), {}), ('specificity', (c, c + d), {})]
+                 ('incidence_rate_ci', (a, t1), {}), ('sensitivity', (a, a + b), {}), ('specificity', (c, c + d), {}),
+                 ('sensitivity', (a, a + b), {'confint': 'hypergeometric'}),
+                 ('specificity', (c, c + d), {'confint': 'hypergeometric'})]
         for fn, args, kw in calls:
             cell_calc(chk, drv, fn, args, kw)
 
@@ -1067,13 +1090,16 @@ def run(chk, drv, rng, tier):
     stream_stmle(chk, drv, rng, tier)
     stream_iptw(chk, drv, rng, tier)
     stream_crossfit(chk, drv, rng, tier)
+    calc2.stream_c06(chk, drv, rng, tier)
 
 
+calc2.JUDGE = judge
 CELLS = {'calc': lambda chk, **k: cell_calc(chk, None, **k), 'dtype': lambda chk, **k: cell_dtype(chk, **k),
          'frame': lambda chk, **k: cell_frame(chk, None, **k), 'aiptw': lambda chk, **k: cell_aiptw(chk, None, **k),
          'tmle': lambda chk, **k: cell_tmle(chk, None, **k), 'stmle': lambda chk, **k: cell_stmle(chk, None, **k),
          'crossfit': lambda chk, **k: cell_crossfit(chk, None, **k), 'joint': lambda chk, **k: cell_joint(chk, None, **k),
          'ic': lambda chk, **k: cell_ic(chk, None, **k), 'iptw': lambda chk, **k: cell_iptw(chk, None, **k)}
+CELLS.update({name: (lambda chk, _f=f, **k: _f(chk, None, **k)) for name, f in calc2.CELLS.items()})
 
 
 def replay(rec):
